@@ -22,6 +22,8 @@ def run(ctx):
     res.assumptions = ["observation at the client sockets with the barrier protocol (DESIGN 2.3)",
                        "snapshot hook reads the state under the server's own lock",
                        "reference model of DESIGN 2.4 encodes the statement; unspecified choices are resynchronised, not judged"]
+    # "a NICK naming a nickname held by another user is refused": also when two ask for the same free nickname at once
+    common.run_rename_storms(ctx, res, "c15:")
     return res
 
 
